@@ -78,7 +78,7 @@ Inductive outcome :=
 Definition sumN (l : list N) : N := fold_left N.add l 0.
 Definition lenN {A} (l : list A) : N := N.of_nat (length l).
 
-(* keepBlobs as PlanPrune computes it (with the ignorePacks flaw F-C09-1 left in: faithful) *)
+(* keepBlobs as PlanPrune computes it (ex = removePacks + repackPacks + ignorePacks, fix d2ae2f7f5) *)
 Definition keep_blobs (used : list N) (es : list entry) (rmrep : list N) : list N :=
   filter (fun h => negb (existsb (fun e => if e_h e =? h then negb (memN (e_pack e) rmrep) else false) es))
          (dedupN used []).
@@ -115,7 +115,7 @@ Definition plan_prune (o : dopts) (used : list N) (es : list entry) (listing : l
     let s_total := s_usedS b + s_dupS b + s_unusedS b + d_unref d in
     let s_rmtotal := srem + s_repackrm + d_unref d in
     let p_unref := lenN (d_first d) in
-    let keep := match repack with [] => [] | _ => keep_blobs used es (d_remove d ++ repack) end in
+    let keep := match repack with [] => [] | _ => keep_blobs used es (d_remove d ++ repack ++ ignore) end in
     Plan (d_first d) (d_remove d) repack ignore keep
       [ (* Blobs *) s_usedB b; s_dupB b; s_unusedB b; b_total; b_repack; b_repackrm; brem; b_rmtotal; b_total - b_rmtotal;
         (* Size *) s_usedS b; s_dupS b; s_unusedS b; d_unref d; uncompressed; s_total; s_repack; s_repackrm; srem;
